@@ -25,6 +25,8 @@ type JobConfig struct {
 	MaxSteps   int            `json:"max_steps,omitempty"`
 	MaxDepth   int            `json:"max_depth,omitempty"`
 	MaxPreempt int            `json:"max_preempt,omitempty"`
+	MaxDelay   int            `json:"max_delay,omitempty"`
+	DelayBounded bool         `json:"delay_bounded,omitempty"`
 	Merge      bool           `json:"merge,omitempty"`
 	MapOrder   string         `json:"map_order,omitempty"`
 	MapReverse bool           `json:"map_reverse,omitempty"`
@@ -46,6 +48,7 @@ type JobSpec struct {
 	Unwind  int               `json:"unwind,omitempty"`
 	MaxSteps int              `json:"max_steps,omitempty"`
 	MaxPreempt int            `json:"max_preempt,omitempty"`
+	MaxDelay   int            `json:"max_delay,omitempty"` // >0: delay-bounded scheduling with this budget
 	NoMerge bool              `json:"no_merge,omitempty"`
 	MapOrder string           `json:"map_order,omitempty"`
 	Solver  string            `json:"solver,omitempty"`
@@ -302,6 +305,8 @@ func mkConfig(js JobSpec, params map[string]int, tier string) *JobConfig {
 	c := &JobConfig{Entry: js.Entry, Params: params, Unwind: js.Unwind, MaxSteps: js.MaxSteps, MaxPreempt: js.MaxPreempt,
 		Merge: !js.NoMerge, MapOrder: js.MapOrder, Solver: js.Solver, TimeoutMs: js.TimeoutMs, MaxPaths: js.MaxPaths}
 	c.NoReplay = js.NoReplay
+	c.MaxDelay = js.MaxDelay
+	c.DelayBounded = js.MaxDelay > 0
 	if c.Unwind == 0 {
 		c.Unwind = 300
 	}
@@ -367,6 +372,7 @@ func cmdRun(args []string) int {
 	unwind := fs.Int("unwind", 300, "")
 	preempt := fs.Int("preempt", 2, "")
 	maporder := fs.String("maporder", "", "")
+	delay := fs.Int("delay", 0, "")
 	fs.Parse(args)
 	w, err := LoadWorld(*repo, *pkg, strings.Split(*harness, ","), "")
 	if err != nil {
@@ -383,6 +389,8 @@ func cmdRun(args []string) int {
 	}
 	cfg := mkConfig(JobSpec{Entry: *entry, NoMerge: *nomerge, Solver: *solver, Unwind: *unwind, MaxPreempt: *preempt, MapOrder: *maporder}, p, "quick")
 	cfg.Trace = *trace
+	cfg.MaxDelay = *delay
+	cfg.DelayBounded = *delay > 0
 	cfg.Canary = *canary
 	if w.pkg.Func(*entry) == nil {
 		fmt.Fprintln(os.Stderr, "ENGINE-ERROR: no such harness function", *entry)
